@@ -302,6 +302,29 @@ def extra_circuits(seed, tier):
     Line(c, i0, g)
     Line(c, (g, 1), o)
     yield c, ('output-gap',)
+    # counters must not wrap: a net with several hundred readers (clock / enable fork) and a gate with several hundred inputs
+    for width in (255, 256, 300, 520):
+        c = Circuit('widefork')
+        i0, f = Node(c, 'clk', 'input'), Node(c, 'clk_fork', '__fork__')
+        c.io_nodes.append(i0)
+        Line(c, i0, f)
+        for k in range(width):
+            g = Node(c, f'b{k}', 'BUF')
+            Line(c, (f, k), g)
+            o = Node(c, f'o{k}', 'output')
+            c.io_nodes.append(o)
+            Line(c, g, o)
+        yield c, ('wide-fork', width)
+    for width in (256, 300):
+        c = Circuit('widegate')
+        g, o = Node(c, 'g', 'AND'), Node(c, 'o', 'output')
+        for k in range(width):
+            i = Node(c, f'i{k}', 'input')
+            c.io_nodes.append(i)
+            Line(c, i, (g, k))
+        c.io_nodes.append(o)
+        Line(c, g, o)
+        yield c, ('wide-gate', width)
 
 
 def traversal_part(tier, seed):
@@ -309,7 +332,7 @@ def traversal_part(tier, seed):
     b = BoundedPart('C17-traversals', ['kyupy.circuit.Circuit.topological_order', 'topological_order_with_level', 'topological_line_order',
                                        'reversed_topological_order', 'fanin'],
                     'the shared circuit space (all 1-gate circuits x all subsets of unconnected pins, 2-gate chains, seeded random circuits with DFF/latch/forks/dangling '
-                    'outputs) plus dedicated unconnected-pin shapes (pin 0 / all pins / removed lines / output gaps); fan-in for every single origin and random origin sets; '
+                    'outputs) plus dedicated unconnected-pin shapes (pin 0 / all pins / removed lines / output gaps) and wide shapes (a fork with 255..520 readers, a gate with 256 / 300 inputs); fan-in for every single origin and random origin sets; '
                     'distinct = circuit structure; non-trivial = >= 1 line',
                     f'exhaustive-small family + {120 if tier == "quick" else 2500} seeded circuits')
     cases = itertools.chain(extra_circuits(seed, tier), logic_drv.circuit_cases(tier, seed))
